@@ -312,8 +312,8 @@ func (gen *generator) irGlobal(new *ir.Global, old *ast.GlobalDecl) error {
 		// (optional) Comdat.
 		case *ast.Comdat:
 			// When comdat name is omitted, the global name is used as an implicit
-			// comdat name.
-			name := new.Name()
+			// comdat name (the name itself, not its quoted spelling).
+			name := new.GlobalName
 			if n, ok := globalField.Name(); ok {
 				name = comdatName(n)
 			}
@@ -579,8 +579,8 @@ func (gen *generator) irFuncHeader(new *ir.Func, old ast.FuncHeader) error {
 		// (optional) Comdat.
 		case *ast.Comdat:
 			// When comdat name is omitted, the function name is used as an implicit
-			// comdat name.
-			name := new.Name()
+			// comdat name (the name itself, not its quoted spelling).
+			name := new.GlobalName
 			if n, ok := funcHdrField.Name(); ok {
 				name = comdatName(n)
 			}
